@@ -45,3 +45,39 @@ func TestAtomicRotationSound(t *testing.T) {
 		}
 	}
 }
+
+// A rotation of an atomic rotation by the complementary amount must give back the rotated term
+// (Feistel round trips: Twofish rotates ic^(t1+k) right by one in Encrypt and left by one in
+// Decrypt), and extractions that stay inside one half of an atomic rotation must keep their value.
+func TestAtomicRotationInverse(t *testing.T) {
+	x, y, k := Var("x", 32), Var("y", 32), Var("k", 32)
+	sh := func(v *Term, n int) *Term {
+		return Or(Shl(v, Const(32, uint64(n))), Lshr(v, Const(32, uint64(32-n))))
+	}
+	r := rand.New(rand.NewSource(3))
+	for n := 1; n < 32; n++ {
+		a := Xor(x, Add(y, k)) // bitwise top, arithmetic below (Twofish: ic ^ (t1 + k))
+		rot := sh(a, n)
+		if !isRot(rot) {
+			t.Fatalf("n=%d: not atomic", n)
+		}
+		if back := sh(rot, 32-n); back != a {
+			t.Fatalf("n=%d: rotl(rotl(a,n),32-n) != a: %v", n, back)
+		}
+		if got := Xor(sh(rot, 32-n), Add(y, k)); got != x {
+			t.Fatalf("n=%d: round trip does not cancel: %v", n, got)
+		}
+		for _, hl := range [][2]int{{n - 1, 0}, {31, n}, {n - 1, n - 1}, {31, 31}, {n, n}, {0, 0}} {
+			e := Extract(rot, hl[0], hl[1])
+			for i := 0; i < 50; i++ {
+				xv, yv, kv := r.Uint32(), r.Uint32(), r.Uint32()
+				m := map[string]*big.Int{"x": big.NewInt(int64(xv)), "y": big.NewInt(int64(yv)), "k": big.NewInt(int64(kv))}
+				full := bits.RotateLeft32(xv^(yv+kv), n)
+				want := uint64(full>>uint(hl[1])) & mask(hl[0]-hl[1]+1)
+				if v, ok := Eval(e, m); !ok || v.Uint64() != want {
+					t.Fatalf("n=%d extract[%d:%d]: got %v want %x", n, hl[0], hl[1], v, want)
+				}
+			}
+		}
+	}
+}
